@@ -111,7 +111,7 @@ def run(ctx):
                 "HierarchicalTree linkage well-formedness; LinkageTree vs scipy.linkage on the same condensed "
                 "distances; plus real series through dtw.distance_matrix / distance_matrix_fast; non-trivial = n >= 3")
     rng = ctx.rng
-    runs = 1500 if ctx.thorough else 250
+    runs = 4000 if ctx.thorough else 250
     nmax = 12 if ctx.thorough else 8
     for it in range(runs):
         n = rng.randint(2, nmax)
